@@ -33,7 +33,7 @@ func c15Domain() Domain {
 }
 
 // c15Encode runs the stream through the entry point against w and returns the error of each call.
-func c15Encode(entry int, vals []interface{}, fw *FaultyWriter, rich bool) (errs []error, firedBefore []int) {
+func c15Encode(entry int, vals []interface{}, fw *FaultyWriter, rich bool) (errs []error, firedBefore []int, sinkAt []int) {
 	var w interface {
 		Write([]byte) (int, error)
 	} = fw
@@ -43,32 +43,38 @@ func c15Encode(entry int, vals []interface{}, fw *FaultyWriter, rich bool) (errs
 	return c15EncodeTo(entry, vals, fw, w)
 }
 
-func c15EncodeTo(entry int, vals []interface{}, fw *FaultyWriter, w io.Writer) (errs []error, firedBefore []int) {
+// sinkAt[i] is the number of bytes the destination had taken before call i (sinkAt[n]: at the end).
+func c15EncodeTo(entry int, vals []interface{}, fw *FaultyWriter, w io.Writer) (errs []error, firedBefore []int, sinkAt []int) {
 	errs = make([]error, len(vals))
 	firedBefore = make([]int, len(vals)+1)
+	sinkAt = make([]int, len(vals)+1)
 	switch entry {
 	case c15EncWriteTo:
 		e := hessian.NewEncoder(nil, ZooNameMap)
 		for i, v := range vals {
 			firedBefore[i] = fw.Fired
+			sinkAt[i] = fw.Sink.Len()
 			errs[i] = e.WriteTo(w, v)
 		}
 	case c15EncWriteObject:
 		e := hessian.NewEncoder(w, ZooNameMap)
 		for i, v := range vals {
 			firedBefore[i] = fw.Fired
+			sinkAt[i] = fw.Sink.Len()
 			errs[i] = e.WriteObject(v)
 		}
 	case c15SerWriteTo:
 		s := hessian.NewSerializer(ZooTypeMap, ZooNameMap)
 		for i, v := range vals {
 			firedBefore[i] = fw.Fired
+			sinkAt[i] = fw.Sink.Len()
 			errs[i] = s.WriteTo(w, v)
 		}
 	case c15SerWrite:
 		s := hessian.NewSerializer(ZooTypeMap, ZooNameMap)
 		for i, v := range vals {
 			firedBefore[i] = fw.Fired
+			sinkAt[i] = fw.Sink.Len()
 			if i == 0 {
 				errs[i] = s.WriteTo(w, v)
 			} else {
@@ -77,6 +83,7 @@ func c15EncodeTo(entry int, vals []interface{}, fw *FaultyWriter, w io.Writer) (
 		}
 	}
 	firedBefore[len(vals)] = fw.Fired
+	sinkAt[len(vals)] = fw.Sink.Len()
 	return
 }
 
@@ -134,7 +141,7 @@ func runC15(ch *Choices, cfg *RunCfg) (o *Outcome) {
 	if rich {
 		o.Probes["destination also offers WriteByte / WriteString / Flush"]++
 	}
-	errs, _ := c15Encode(entry, vals, ctl, rich)
+	errs, _, ctlAt := c15Encode(entry, vals, ctl, rich)
 	for _, e := range errs {
 		if e != nil {
 			o.Skipped = true
@@ -162,7 +169,7 @@ func runC15(ch *Choices, cfg *RunCfg) (o *Outcome) {
 			}
 			resetClock(0)
 			w := &FaultyWriter{FaultAt: k, Kind: kind}
-			errs, fb := c15Encode(entry, vals, w, rich)
+			errs, fb, at := c15Encode(entry, vals, w, rich)
 			o.Steps += clock.steps
 			o.Evals++
 			if w.Fired == 0 {
@@ -187,6 +194,32 @@ func runC15(ch *Choices, cfg *RunCfg) (o *Outcome) {
 						c15EntryNames[entry], i+1, clip(describe(vals[i]), 80), kind, k, W, siteString(site), w.Sink.Len(), len(ctlBytes))
 					if o.Extra == nil {
 						o.Extra = map[string]string{"pin": pin}
+					}
+				}
+			}
+			// second clause: success is never reported for a value whose bytes did not all reach the writer.
+			// A call during which nothing faulted and that returns nil must have delivered the value's
+			// bytes - the control bytes of that call. One-shot entry points start every call from a clean
+			// state, so this holds for every such call, also after a failed one; on a stream it is only
+			// demanded while nothing has faulted yet (afterwards the stream is broken anyway).
+			oneShot := entry == c15EncWriteTo || entry == c15SerWriteTo
+			for i := range vals {
+				if errs[i] != nil || fb[i+1]-fb[i] > 0 || (!oneShot && fb[i] > 0) {
+					continue
+				}
+				o.Probes["successful call next to a faulted one compared with its control bytes"]++
+				got := w.Sink.Bytes()[at[i]:at[i+1]]
+				want := ctlBytes[ctlAt[i]:ctlAt[i+1]]
+				if string(got) != string(want) {
+					what := "after"
+					if fb[i] == 0 {
+						what = "before"
+					}
+					o.fail("c15/success-without-bytes", c15EntryNames[entry],
+						"%s: call #%d (value %s) returned nil and the writer did not fault during it, but only %d of its %d bytes reached the writer (%s the call in which the writer faulted (%s) at Write #%d of %d): success reported for a value whose bytes did not all reach the writer",
+						c15EntryNames[entry], i+1, clip(describe(vals[i]), 80), len(got), len(want), what, kind, k, W)
+					if o.Extra == nil {
+						o.Extra = map[string]string{"pin": fmt.Sprintf("%d/%d", k, int(kind))}
 					}
 				}
 			}
